@@ -2,6 +2,7 @@
 from .. import configs
 from ..algorun import replay_algo, run_algo_task
 from ..ledger import LedgerOracle, WrapperLedgerOracle, ZoomingLedgerOracle, recording_classes
+from ..world import InterposedQuery
 
 ID = "C04"
 LEVEL = "model_checking"
@@ -9,6 +10,7 @@ RULE = ("Every reward sequence in R^T (E-full, all RNG answers or <=1 RNG deviat
         "deviations of base scripts over T up to 100-200 rounds (E-dev), for every algorithm x {Binary 1-D, DimensionBinary 2-D, "
         "Kary(3) 1-D}; after every round the harness ledger (cell -> rewards under the crediting rule of the statement) is "
         "compared with the counters, reward lists, means and variances of every cell reachable from the root.  "
+        "A second family of tasks interposes get_last_point() between pull and receive_reward (choice point, <= 1-2 per run).  "
         "distinct_nontrivial = executions in which at least two different cells were credited.")
 ASSUMPTIONS = ["NumPy arithmetic", "anchored attributes (path, curr_node, update_list, best_arm, max_b_node_*) name the handed-out "
                "cell; the returned point is checked to be that cell's representative",
@@ -40,6 +42,9 @@ def tasks(tier, seed):
             T = 3 if tier == "quick" else 4
         ts.append({"kind": "algo", "label": "full/%s/%s" % (label, cfg["part"]), "cfg": cfg, "mode": "full", "T": T,
                    "R": list(configs.R3), "rng_k": 1 if vroom else None})
+        # the same with get_last_point() interposed between pull and receive_reward in at most one (thorough: two) rounds
+        ts.append({"kind": "algo", "label": "fullq/%s/%s" % (label, cfg["part"]), "cfg": cfg, "mode": "full", "T": (3 if vroom else 5) if tier == "quick" else (4 if vroom else 7),
+                   "R": list(configs.R2), "query_k": 1 if tier == "quick" else 2, "interpose": True})
         bases = ("peak", "alt") if tier == "quick" else ("peak", "alt", "zero", "negpeak", "twopeak")
         if wrapper and tier == "quick":
             if cfg["part"] != "Binary":
@@ -60,13 +65,14 @@ def tasks(tier, seed):
     return ts
 
 
-def _mk_for(cfg):
+def _mk_for(cfg, interpose=False):
     a = cfg["algo"]
+    extra = [InterposedQuery] if interpose else []
     if a == "Zooming":
-        return lambda: [ZoomingLedgerOracle()]
+        return lambda: [ZoomingLedgerOracle()] + [c() for c in extra]
     if a in configs.WRAPPERS:
-        return lambda: [WrapperLedgerOracle()]
-    return lambda: [LedgerOracle()]
+        return lambda: [WrapperLedgerOracle()] + [c() for c in extra]
+    return lambda: [LedgerOracle()] + [c() for c in extra]
 
 
 def _nontrivial(ctx):
@@ -79,12 +85,12 @@ def _nontrivial(ctx):
 
 def run_task(task):
     lc = recording_classes if task["cfg"]["algo"] in configs.WRAPPERS else None
-    return run_algo_task(task, _mk_for(task["cfg"]), nontrivial=_nontrivial, learner_classes=lc)
+    return run_algo_task(task, _mk_for(task["cfg"], task.get("interpose")), nontrivial=_nontrivial, learner_classes=lc)
 
 
 def replay(task, script):
     lc = recording_classes if task["cfg"]["algo"] in configs.WRAPPERS else None
-    return replay_algo(task, script, _mk_for(task["cfg"]), learner_classes=lc)
+    return replay_algo(task, script, _mk_for(task["cfg"], task.get("interpose")), learner_classes=lc)
 
 
 def bounds(tier):
